@@ -43,6 +43,10 @@ class Reporter:
 
 
 def make_settings(examples: int, steps: int | None = None, shrink: bool = True) -> settings:
+    import os
+
+    if os.environ.get("VERIF_NOSHRINK"):
+        shrink = False  # ./selftest: a caught seeded defect needs no minimal reproduction
     kw: dict[str, Any] = dict(
         max_examples=examples,
         deadline=None,
